@@ -736,6 +736,31 @@ def shape_ok(v, s, named):
     return False
 
 
+def _accepts_null(ft, named):
+    ft = resolve(ft, named) if not isinstance(ft, list) else ft
+    if isinstance(ft, list):
+        return any(_accepts_null(b, named) for b in ft)
+    return (ft if isinstance(ft, str) else ft.get("type")) == "null"
+
+
+def writer_admits(v, s, named):
+    """v is a datum the WRITER may file under s (C10's conformance relation, looser than shape_ok for records: a field may be
+    absent when it has a default or accepts null, keys that are not fields are ignored).  Used only to decide whether the
+    union branch a generated value ends up in is ambiguous (then the read-back view is C09's business, not C20's)."""
+    s = resolve(s, named)
+    if isinstance(s, list):
+        return any(writer_admits(v, b, named) for b in s)
+    t = s if isinstance(s, str) else s["type"]
+    if t == "array":
+        return type(v) in (list, bytes) and all(writer_admits(x, s["items"], named) for x in v)
+    if t == "map":
+        return type(v) is dict and all(type(k) is str for k in v) and all(writer_admits(x, s["values"], named) for x in v.values())
+    if t in ("record", "error"):
+        return type(v) is dict and all((writer_admits(v[f["name"]], f["type"], named) if f["name"] in v
+                                        else ("default" in f or _accepts_null(f["type"], named))) for f in s["fields"])
+    return shape_ok(v, s, named)
+
+
 AMBIGUOUS = [0]
 
 
@@ -744,7 +769,7 @@ def read_equiv(v, out, s, named):
     s = resolve(s, named)
     if isinstance(s, list):
         adm = [b for b in s if shape_ok(v, b, named)]
-        if len(adm) >= 2:
+        if len([b for b in s if writer_admits(v, b, named)]) >= 2:
             # several branches admit the stored value: which one the writer files it under is C09's business, and the reader
             # then returns that branch's view of it (an int generated as a date may come back as a time of day)
             AMBIGUOUS[0] += 1
